@@ -77,4 +77,7 @@ def lruConc (c : Case) : Verdict :=
     else .propFail tag "history-not-linearizable-to-lru-map"
   | _, _ => .bad "lru_conc: bad input"
 
+/-- families served by this module (collected by the generated `DrvAll`). -/
+def families : List (String × (Case → Verdict)) := [("lru", lru), ("lru_conc", lruConc)]
+
 end Drv.C36
